@@ -2,8 +2,9 @@
 
    Rust sources modelled (all under /repo/src/debugger):
      variable/value/parser.rs                     scalar_from_bytes, parse_scalar, parse_rust_enum
-     variable/value/mod.rs:142                    ScalarValue::try_as_number
-     debugee/dwarf/type.rs:854-872, unit/die.rs:97  enum variant table, Die::discr_value
+     variable/value/mod.rs:147                    ScalarValue::try_as_number
+     debugee/dwarf/type.rs:583-597, 864-924, unit/die.rs:97-110  discr_value_in_tag_range, enum variant table,
+                                                   Die::discr_value / discr_value_unsigned
      gimli-0.33.0 src/read/unit.rs:1825           AttributeValue::sdata_value
      variable/value/specialization/mod.rs         guard_len/guard_cap, parse_vector_inner, parse_vec_dequeue_inner
      variable/value/specialization/hashbrown.rs   BitMask, GroupReflection, BucketIterator
@@ -35,8 +36,10 @@ Definition EIO : N := 5.
 (* Panic sites *)
 Definition SITE_SCALAR_OOB : N := 601.   (* parser.rs:696 read_unaligned past the buffer: undefined behaviour, not a Rust panic *)
 Definition SITE_VEC_MUL : N := 602.      (* mod.rs:232  len as usize * el_type_size overflows (debug profile) *)
-Definition SITE_VD_MUL : N := 603.       (* mod.rs:765  cap * el_type_size overflows (debug profile) *)
-Definition SITE_VD_SLICE : N := 604.     (* mod.rs:774  &data[offset..(real_idx + 1) * el_type_size] out of range *)
+Definition SITE_VD_MUL : N := 603.       (* mod.rs:779-780  data_ptr + range.start * el_type_size / range.len() * el_type_size
+                                            overflows (debug profile) *)
+Definition SITE_VD_SLICE : N := 604.     (* [before 1a591ca] &data[offset..(real_idx + 1) * el_type_size] out of range; unreachable now *)
+Definition SITE_VD_ALLOC : N := 608.     (* debugger/mod.rs:1315 Vec::with_capacity(read_n), read_n > isize::MAX *)
 Definition SITE_HB_BUCKETS : N := 605.   (* hashbrown.rs:126 bucket_mask + 1 overflows (debug profile) *)
 Definition SITE_BT_SLICE : N := 606.     (* btree.rs:352/359 keys_raw[..]/vals_raw[..] out of range *)
 Definition SITE_BT_EDGE : N := 607.      (* btree.rs:383/388/410 internal.edges[idx] out of range *)
@@ -109,7 +112,7 @@ Definition to_le_bytes_s (w : nat) (z : Z) : list N :=
 Definition wrap_i64 (z : Z) : Z :=
   let m := (z mod 2 ^ 64)%Z in if (m <? 2 ^ 63)%Z then m else (m - 2 ^ 64)%Z.
 
-(* value/mod.rs:142 ScalarValue::try_as_number : I128/U128 (and non-integers) give None *)
+(* value/mod.rs:147 ScalarValue::try_as_number : I128/U128 (and non-integers) give None *)
 Definition try_as_number (byte_size : N) (v : scalar_view) : option Z :=
   match v with
   | SvInt z => if byte_size =? 16 then None else Some (wrap_i64 z)
@@ -132,12 +135,37 @@ Definition sdata_value (f : dw_form) (raw : Z) : option Z :=
 (* one DW_TAG_variant: its DW_AT_discr_value attribute (None = the default variant) and an id of the member *)
 Definition variant_die : Type := (option (dw_form * Z) * N)%type.
 
-(* type.rs:854-872 : (variant.discr_value(), member) pairs collected into a HashMap; a variant whose
+(* type.rs:895-924 : (discriminant constant, member) pairs collected into a HashMap; a variant whose
    attribute does not convert gets the key None like the default variant *)
-Definition enum_key (v : variant_die) : option Z :=
-  match fst v with None => None | Some (f, raw) => sdata_value f raw end.
-Definition enum_table (vs : list variant_die) : list (option Z * N) :=
-  map (fun v => (enum_key v, snd v)) vs.
+(* type.rs:583-597 (163122d) discr_value_in_tag_range: the constant is reduced modulo the size of the tag type and
+   re-interpreted with the signedness of the tag type (tags of 8 bytes and unknown tags: unchanged) *)
+Definition discr_in_tag_range (signed : bool) (byte_size : N) (z : Z) : Z :=
+  if (byte_size =? 0) || (8 <=? byte_size) then z
+  else
+    let m := Z.to_N (z mod Z.of_N (2 ^ (8 * byte_size)))%Z in
+    if signed then to_signed (N.to_nat byte_size) m else Z.of_N m.
+(* gimli-0.33.0 read/unit.rs:1806 AttributeValue::udata_value (Die::discr_value_unsigned, unit/die.rs:107) *)
+Definition udata_value (f : dw_form) (raw : Z) : option Z :=
+  match f with
+  | FSdata => if (raw <? 0)%Z then None else Some raw
+  | _ => Some raw
+  end.
+(* type.rs:911-919 (17dfded): an unsigned tag takes the zero-extended bits of the form
+   (discr_value_unsigned() as i64, falling back to discr_value()), a signed tag the constant
+   sign-extended by the size of the form (discr_value() = sdata_value) *)
+Definition discr_attr_value (signed : bool) (f : dw_form) (raw : Z) : option Z :=
+  if signed then sdata_value f raw
+  else match udata_value f raw with
+       | Some u => Some (wrap_i64 u)
+       | None => sdata_value f raw
+       end.
+Definition enum_key (signed : bool) (byte_size : N) (v : variant_die) : option Z :=
+  match fst v with
+  | None => None
+  | Some (f, raw) => option_map (discr_in_tag_range signed byte_size) (discr_attr_value signed f raw)
+  end.
+Definition enum_table (signed : bool) (byte_size : N) (vs : list variant_die) : list (option Z * N) :=
+  map (fun v => (enum_key signed byte_size v, snd v)) vs.
 
 Definition okey_eqb (a b : option Z) : bool :=
   match a, b with
@@ -170,7 +198,7 @@ Definition select_variant (tbl : list (option Z * N)) (discr : option Z) : optio
   end.
 
 Definition enum_decode (signed : bool) (byte_size : N) (vs : list variant_die) (bytes : list N) : res (option N) :=
-  d <- read_discr signed byte_size bytes ;; Ok (select_variant (enum_table vs) d).
+  d <- read_discr signed byte_size bytes ;; Ok (select_variant (enum_table signed byte_size vs) d).
 
 (* specification: the compiler's meaning of the variant part.  [ivs] = (discriminant the compiler
    assigned, as a number of the tag type; None for the default/dataful variant of a niche layout, id);
@@ -195,8 +223,9 @@ Definition intended_value (signed : bool) (v : variant_die) : option Z :=
   match fst v with
   | None => None
   | Some (f, raw) =>
-      (* LLVM DwarfUnit: unsigned tag type -> addUInt (the number itself, in the smallest data form);
-         signed tag type -> addSInt (two's complement in the smallest data form) *)
+      (* LLVM DwarfUnit: unsigned tag type -> addUInt (the number itself, in the narrowest data form);
+         signed tag type -> addSInt (two's complement in the narrowest data form that holds it as a
+         signed number: -56 is DW_FORM_data1 0xc8 whatever the width of the tag; checked with rustc 1.89) *)
       if signed then sdata_value f raw else Some raw
   end.
 Definition intended_table (signed : bool) (vs : list variant_die) : list (option Z * N) :=
@@ -227,33 +256,47 @@ Definition vec_spec (len el_size : N) (buf : list N) : list (N * list N) :=
 (* ------------------------------------------------------------------------------------------ *)
 Definition range_list (lo hi : N) : list N := seqN lo (N.to_nat (hi - lo)).
 
-(* mod.rs:768-786 : the closure of the item iterator, in iteration order *)
-Fixpoint vd_items (el_size : N) (data : list N) (idxs : list N) : res (list (N * list N)) :=
-  match idxs with
-  | [] => Ok []
-  | i :: t =>
-      e <- slice_bytes SITE_VD_SLICE data (i * el_size) ((i + 1) * el_size) ;;
-      r <- vd_items el_size data t ;;
-      Ok ((i, e) :: r)
-  end.
-
-(* the two index ranges, mod.rs:745-760 *)
-Definition vd_indices (len_raw cap_raw head el_size : N) : list N :=
+(* the two index ranges, mod.rs:756-771 at HEAD (1a591ca): the real capacity is the ring modulus;
+   only len is guarded *)
+Definition vd_cap (cap_raw el_size : N) : N := if el_size =? 0 then USIZE_MAX else cap_raw.
+Definition vd_ranges (len_raw cap_raw head el_size : N) : (N * N) * (N * N) :=
   let len := guard_len len_raw in
-  let cap := if el_size =? 0 then USIZE_MAX else guard_cap cap_raw in
+  let cap := vd_cap cap_raw el_size in
   let wrapped_start := if cap =? 0 then 0 else head mod cap in
   let head_len := cap - wrapped_start in
   if len <=? head_len
-  then range_list wrapped_start (wrapped_start + len)
-  else range_list wrapped_start cap ++ range_list 0 (len - head_len).
+  then ((wrapped_start, wrapped_start + len), (0, 0))
+  else ((wrapped_start, cap), (0, len - head_len)).
+Definition vd_indices (len_raw cap_raw head el_size : N) : list N :=
+  let '((a, b), (c, d)) := vd_ranges len_raw cap_raw head el_size in
+  range_list a b ++ range_list c d.
 
-(* mod.rs:727-786 parse_vec_dequeue_inner: (slot index in the ring, element bytes) in display order.
-   [buf] = the bytes at the buffer pointer. *)
-Definition vecdeque_decode (len_raw cap_raw head el_size : N) (buf : list N) : res (list (N * list N)) :=
-  let cap := if el_size =? 0 then USIZE_MAX else guard_cap cap_raw in
-  if 2 ^ 64 <=? cap * el_size then Panic SITE_VD_MUL else
-  data <- read_bytes buf 0 (cap * el_size) ;;
-  vd_items el_size data (vd_indices len_raw cap_raw head el_size).
+(* mod.rs:776-783 read_range: read_memory_by_pid(pid, data_ptr + range.start * el_type_size,
+   range.len() * el_type_size).  usize arithmetic is overflow-checked in the debug profile; a request of
+   more than isize::MAX bytes panics in Vec::with_capacity (debugger/mod.rs:1315, "capacity overflow").
+   [buf] = the bytes at data_ptr. *)
+Definition vd_read_range (data_ptr : N) (buf : list N) (el_size : N) (r : N * N) : res (list N) :=
+  let '(a, b) := r in
+  if 2 ^ 64 <=? a * el_size then Panic SITE_VD_MUL
+  else if 2 ^ 64 <=? data_ptr + a * el_size then Panic SITE_VD_MUL
+  else if 2 ^ 64 <=? (b - a) * el_size then Panic SITE_VD_MUL
+  else if 2 ^ 63 <=? (b - a) * el_size then Panic SITE_VD_ALLOC
+  else read_bytes buf (a * el_size) ((b - a) * el_size).
+
+(* mod.rs:735-805 parse_vec_dequeue_inner at HEAD: the two occupied ranges are read separately and every
+   element is sliced out of its own range (data[offset..offset + el_type_size] with
+   offset = (real_idx - range.start) * el_type_size is always inside the range just read).
+   Result: (slot index in the ring, element bytes) in display order. *)
+Definition vecdeque_decode_at (data_ptr len_raw cap_raw head el_size : N) (buf : list N)
+  : res (list (N * list N)) :=
+  let '((a, b), (c, d)) := vd_ranges len_raw cap_raw head el_size in
+  d0 <- vd_read_range data_ptr buf el_size (a, b) ;;
+  d1 <- vd_read_range data_ptr buf el_size (c, d) ;;
+  Ok (map (fun i => (i, elem_at d0 el_size (i - a))) (range_list a b) ++
+      map (fun i => (i, elem_at d1 el_size (i - c))) (range_list c d)).
+
+(* the correspondence cases give the buffer relative to its own start *)
+Definition vecdeque_decode : N -> N -> N -> N -> list N -> res (list (N * list N)) := vecdeque_decode_at 0.
 
 (* specification: the len elements starting at head in the ring of cap slots.  For a zero-sized element
    type VecDeque::capacity() is usize::MAX. *)
